@@ -38,6 +38,12 @@ PROPS['C09'] = dict(level='proof', steps=[V('stream')],
                 text='PNG predictor decoding equals the PNG 9.2 definition, ASCII85 decoding equals ISO 7.4.3, predictor dispatch and geometry, and the Length / Filter / DecodeParms bookkeeping of new, set_content, set_plain_content, compress, decompress, for every input (Verus).',
                 note='flate2/weezl assumed; allocation within the granted bound assumed to succeed')
 
+PROPS['C16'] = dict(level='proof', steps=[E3('c16-text', complete=True), E3('c16-strings')],
+                title='Text strings and one-byte encodings round-trip text',
+                technique='complete enumeration of the finite domains on the real code (all Unicode scalar values; 5 tables x 256 bytes) + bounded strings',
+                text='every clause over a finite domain is decided by complete enumeration on the real functions: all 1 112 064 scalar values through text_string/decode_text_string, all 5 x 256 table entries (decode total, re-encode stable, published WinAnsi/MacRoman/PDFDoc values); multi-character strings are a bounded family; text extraction through a saved file is not covered here.',
+                note='std UTF-8/UTF-16 conversions trusted for the step from single characters to strings; Verus cannot reason about str, so no contract was placed on these functions')
+
 NOT_APPLICABLE = {
     'C18': "every clause is about what chrono/jiff/time format and parse; the crate's own code is two string edits, so no contract within either verifier's reach expresses the property",
 }
